@@ -20,6 +20,8 @@
 //!   c01.xref             classic cross-reference tables, well-formed and mutated (huge counts, missing entries),
 //!                        and soup, through `read_xref_and_trailer_at`
 //!
+//!   c01.registry         the generated schemas satisfy the decidable hypothesis of `typed_registry_total` (driver-evaluated)
+//!
 //! Model side: `c03.*` requests are answered by Drv/C03.lean (same models), `c01.*` by Drv/C01.lean.
 //! Oracle `c01.entry`: every call of a real function made for these streams; a panic is a failure of the
 //! property itself (signature `panic@<entry point>`), a call that does not come back within 10 s a `hang@…`.
@@ -57,6 +59,36 @@ const INLINE_SEARCH: &str = "ei";
 /// (the environment variable C01_INLINE_SEARCH overrides the constant: for trying a tree before it is merged)
 fn inline_search() -> String {
     std::env::var("C01_INLINE_SEARCH").unwrap_or_else(|_| INLINE_SEARCH.to_string())
+}
+
+/// `TestResolve` (indirect `/Length` from a table) whose stream data are the bytes of the buffer under the lexer
+/// (offset 0), decoded with the library's own filters
+struct BufResolve {
+    inner: TestResolve,
+    buf: Vec<u8>,
+}
+
+impl pdf::object::Resolve for BufResolve {
+    fn resolve_flags(&self, r: pdf::object::PlainRef, flags: pdf::parser::ParseFlags, depth: usize) -> pdf::error::Result<Primitive> {
+        self.inner.resolve_flags(r, flags, depth)
+    }
+    fn get<T: pdf::object::Object>(&self, r: pdf::object::Ref<T>) -> pdf::error::Result<pdf::object::RcRef<T>> {
+        let _ = r;
+        Err(pdf::error::PdfError::Reference)
+    }
+    fn options(&self) -> &pdf::object::ParseOptions {
+        &self.inner.opts
+    }
+    fn stream_data(&self, _id: pdf::object::PlainRef, range: std::ops::Range<usize>) -> pdf::error::Result<Arc<[u8]>> {
+        self.buf.get(range).map(Arc::from).ok_or(pdf::error::PdfError::EOF)
+    }
+    fn get_data_or_decode(&self, id: pdf::object::PlainRef, range: std::ops::Range<usize>, filters: &[pdf::enc::StreamFilter]) -> pdf::error::Result<Arc<[u8]>> {
+        let mut data: Vec<u8> = self.stream_data(id, range)?.to_vec();
+        for f in filters {
+            data = pdf::enc::decode(&data, f)?.to_vec();
+        }
+        Ok(Arc::from(data))
+    }
 }
 
 fn guard(f: impl FnOnce() -> String) -> String {
@@ -187,18 +219,21 @@ fn both_c01(req: &str, model: &str) -> (String, String) {
         "c01.xref" => {
             let (buf, pos) = (bytes(1), num(2));
             let lens: LenMap = f.get(3).and_then(|s| c03::read_lens(s)).unwrap_or_default();
+            let allow_err = f.get(4) == Some(&"1");
             let is_table = guard(|| { let mut lx = lexer_at(&buf, pos); match lx.next() { Ok(w) if w.equals(b"xref") => "t".into(), _ => "s".into() } });
             let m: Vec<&str> = model.split(' ').collect();
-            // model `table <subs> <dict> <pos>`: the dictionary in the canonical notation of the harness
+            // `table <subs> <dict> <pos>` / `stream <subs> <dict>`: the dictionary in the canonical notation of the harness
             let expected = if m.len() == 4 && m[0] == "table" {
                 match read_val(m[2]) { Some(v) => format!("table {} {} {}", m[1], show_canon(&v), m[3]), None => format!("unreadable:{}", model) }
-            } else if m.first() == Some(&"stream") { "stream".to_string() } else { model.to_string() };
+            } else if m.len() == 3 && m[0] == "stream" {
+                match read_val(m[2]) { Some(v) => format!("stream {} {}", m[1], show_canon(&v)), None => format!("unreadable:{}", model) }
+            } else { model.to_string() };
             let imp = guard(|| {
-                let res = TestResolve::new(&lens, false);
+                let mut res = BufResolve { inner: TestResolve::new(&lens, false), buf: buf.clone() };
+                res.inner.opts.allow_xref_error = allow_err;
                 let mut lx = lexer_at(&buf, pos);
                 match pdf::parser::read_xref_and_trailer_at(&mut lx, &res) {
                     Ok((secs, dict)) => {
-                        if is_table != "t" { return "stream".into(); }
                         let subs: Vec<String> = secs.iter().map(|s| format!("{}={}", s.first_id, s.entries.iter().map(|e| match e {
                             pdf::xref::XRef::Free { next_obj_nr, gen_nr } => format!("f{}.{}", next_obj_nr, gen_nr),
                             pdf::xref::XRef::Raw { pos, gen_nr } => format!("n{}.{}", pos, gen_nr),
@@ -206,13 +241,15 @@ fn both_c01(req: &str, model: &str) -> (String, String) {
                             pdf::xref::XRef::Promised => "p".into(),
                             pdf::xref::XRef::Invalid => "i".into(),
                         }).collect::<Vec<_>>().join(","))).collect();
-                        let v = prim_to_val(&Primitive::Dictionary(dict), &res);
-                        format!("table {} {} {}", if subs.is_empty() { "-".to_string() } else { subs.join(";") }, show_canon(&v), lx.get_pos())
+                        let v = prim_to_val(&Primitive::Dictionary(dict), &res.inner);
+                        let subs = if subs.is_empty() { "-".to_string() } else { subs.join(";") };
+                        if is_table == "t" { format!("table {} {} {}", subs, show_canon(&v), lx.get_pos()) } else { format!("stream {} {}", subs, show_canon(&v)) }
                     }
-                    Err(_) => if is_table == "t" || expected != "stream" { "err".into() } else { "stream".into() },
+                    Err(_) => "err".into(),
                 }
             });
-            (expected, imp)
+            // a stream dictionary outside the plain shape the driver's typed reader covers: outcome class only
+            if expected == "unmodelled" { ("unmodelled".into(), if imp == "panic" { imp } else { "unmodelled".into() }) } else { (expected, imp) }
         }
         _ => (model.to_string(), "unsupported-request".into()),
     }
@@ -396,7 +433,7 @@ fn exhaustive_stream(run: &mut Runner, thorough: bool) -> Stream {
     st.count("op=c03.parse plain");
     run.compare(&mut st, reqs);
     let mut reqs = vec![];
-    for b in &bufs { reqs.push(parse_request("ind1", b, 0, 1023, 0, &vec![], None)); reqs.push(parse_request("stm", b, 0, 1023, 0, &vec![], Some((1, 0)))); reqs.push(format!("c01.xref {} 0 -", hex(b))); }
+    for b in &bufs { reqs.push(parse_request("ind1", b, 0, 1023, 0, &vec![], None)); reqs.push(parse_request("stm", b, 0, 1023, 0, &vec![], Some((1, 0)))); reqs.push(format!("c01.xref {} 0 - 0", hex(b))); }
     st.count("op=c03.parse ind1/stm, c01.xref");
     run.compare(&mut st, reqs);
     // operations with a number: a few values around the buffer's length and the extremes
@@ -652,7 +689,7 @@ fn xref_stream(run: &mut Runner, seed: u64, n: u64) -> Stream {
     for case in 0..n {
         let mut rng = Rng::derive(seed, "c01.xref", case);
         let mut buf = vec![];
-        let kind = rng.below(8);
+        let kind = if rng.chance(1, 3) { 6 } else { rng.below(8) };
         if kind < 6 {
             buf.extend_from_slice(b"xref\n");
             for _ in 0..rng.usize(3) {
@@ -673,19 +710,45 @@ fn xref_stream(run: &mut Runner, seed: u64, n: u64) -> Stream {
             buf.extend_from_slice(*rng.pick(&[&b"<</Size 4/Root 1 0 R>>"[..], b"<</Size 4", b"[1]", b"<<>>", b"", b"<</Size 4/Prev 10>>\nstartxref\n0\n%%EOF"]));
             if rng.chance(1, 4) { mutate(&mut rng, &mut buf); }
         } else if kind == 6 {
-            // a cross-reference stream head
-            buf.extend_from_slice(*rng.pick(&[&b"5 0 obj\n<</Type/XRef/Size 2/W[1 1 1]/Length 6>>\nstream\n\x00\x00\xff\x01\x10\x00\nendstream\nendobj\nstartxref"[..],
-                b"5 0 obj\n<</Type/XRef/Length 0>>\nstream\n\nendstream\nendobj", b"5 0 obj <<>> endobj", b"5 0 obj\n<</Length 1 0 R>>\nstream\nabc\nendstream\nendobj\ntrailer\n<</Size 1>>"]));
-            if rng.chance(1, 3) { mutate(&mut rng, &mut buf); }
+            // a cross-reference stream: widths, /Index, row data and /Size drawn at random, sometimes hostile
+            let w: Vec<u64> = match rng.below(14) { 0 => vec![0, 0, 0], 1 => vec![9, 1, 1], 2 => vec![1, 1], 3 | 4 => vec![0, 2, 1], _ => vec![1 + rng.below(2), 1 + rng.below(3), rng.below(3)] };
+            let row: usize = w.iter().map(|x| *x as usize).sum();
+            let rows = rng.usize(5);
+            let mut data = vec![];
+            for _ in 0..rows { for (i, wi) in w.iter().enumerate() { for k in 0..*wi { data.push(if i == 0 && k + 1 == *wi { *rng.pick(&[0u8, 1, 1, 2, 2, 7]) } else if rng.chance(1, 3) { rng.byte() } else { 0 }); } } }
+            if rng.chance(1, 8) { data.truncate(data.len().saturating_sub(1 + rng.usize(2))); }
+            let index = match rng.below(12) { 0 => format!("/Index[0 {}]", rows + 1), 1 => "/Index[3]".to_string(), 2 => format!("/Index[0 1 5 {}]", rows.saturating_sub(1)), 3 => "/Index[0 4294967295]".to_string(), _ => String::new() };
+            let size = match rng.below(12) { 0 => "4294967295".to_string(), 1 => "-1".to_string(), _ => format!("{}", rows) };
+            let extra = *rng.pick(&["", "", "", "/Prev 10", "/Root 1 0 R", "/Filter/ASCIIHexDecode", "/Foo 1"]);
+            let ty = if rng.chance(9, 10) { "/Type/XRef" } else { "" };
+            let ws: Vec<String> = w.iter().map(|x| x.to_string()).collect();
+            buf.extend_from_slice(format!("5 0 obj\n<<{}/Size {}/W[{}]{}{}/Length {}>>\nstream\n", ty, size, ws.join(" "), index, extra, data.len()).as_bytes());
+            buf.extend_from_slice(&data);
+            buf.extend_from_slice(*rng.pick(&[&b"\nendstream\nendobj\nstartxref"[..], b"\nendstream\nendobj\nstartxref", b"\nendstream\nendobj\ntrailer\n<</Size 9>>", b"\nendstream\nendobj\ntrailer\n<</Size 9/Prev 3>>\n", b"\nendstream\nendobj", b"\nendstream"]));
+            let _ = row;
+            if rng.chance(1, 10) { mutate(&mut rng, &mut buf); }
         } else {
             buf = gen_soup(&mut rng, 60);
         }
         let pos = if rng.chance(4, 5) { 0 } else { rng.usize(buf.len() + 1) };
         let lens = rand_lens(&mut rng);
         st.count(&format!("kind={}", if kind < 6 { "table" } else if kind == 6 { "stream" } else { "soup" }));
-        reqs.push(format!("c01.xref {} {} {}", hex(&buf), pos, c03::show_lens(&lens)));
+        reqs.push(format!("c01.xref {} {} {} {}", hex(&buf), pos, c03::show_lens(&lens), rng.below(2)));
     }
     run.compare(&mut st, reqs);
+    st
+}
+
+/// the decidable hypothesis of `Props/C01.typed_registry_total` (every `default = ".."` of the generated schemas is of a
+/// form the interpreter evaluates; `Page` / `PageTree` exist), evaluated by the compiled driver on the schemas the
+/// translator has just regenerated from the source: a translator obligation, reported like a broken correspondence
+fn registry_stream(driver: &Driver) -> Stream {
+    let mut st = Stream::new("c01.registry", true);
+    st.exhaustive = true;
+    let rq = "c01.registry".to_string();
+    let m = driver.ask(&[rq.clone()]).pop().unwrap_or_default();
+    for part in m.split(' ').skip(1) { st.count(part); }
+    st.case(&rq, &m, if m.starts_with("ok ") { &m } else { "ok" }, true);
     st
 }
 
@@ -693,6 +756,7 @@ pub fn streams(driver: &Driver, seed: u64, thorough: bool) -> (Vec<Stream>, Orac
     let mut run = Runner::new(driver, seed);
     let k: u64 = if thorough { 40 } else { 1 };
     let mut out = vec![];
+    out.push(registry_stream(driver));
     out.push(exhaustive_stream(&mut run, thorough));
     out.extend(random_streams(&mut run, seed, 40_000 * k));
     out.push(str_stream(&mut run, seed, 20_000 * k));
